@@ -311,9 +311,20 @@ func runCase(c caseT) bool {
 			}
 		}
 		wr, alive := W.ask(line)
+		oline := line
+		if alive && (op == "browse" || op == "browseall") {
+			// the order in which the real store handed the records to the walk function: the reference needs it to judge
+			// a BR_ABORT answer, and the model takes the order of the walk list as Go's map order (Model.Qdb.visitSet)
+			ordS, _ := W.ask("lastorder")
+			ref.order = parseOrder(ordS)
+			oline = op + " " + orderedWalk(t[1], ref.order)
+			if oline != line {
+				r.Hit("walk:BR_ABORT-answer-listed")
+			}
+		}
 		or := ""
 		if !desync {
-			or = o.MustAsk(line)
+			or = o.MustAsk(oline)
 		}
 		r.Hit("op:" + op)
 		if !alive {
@@ -348,7 +359,7 @@ func runCase(c caseT) bool {
 				if nl < prevNl {
 					r.Hit("lazy:get-loads-record")
 				}
-			case "put", "putext", "del", "flags", "browse", "nosync":
+			case "put", "putext", "del", "flags", "browse", "browseall", "nosync":
 				r.Hit("lazy:" + op + "-with-unloaded-records")
 			case "sync", "defrag":
 				if prevPe > 0 || op == "defrag" {
@@ -435,6 +446,64 @@ func runCase(c caseT) bool {
 		}
 	}
 	return !desync
+}
+
+func parseOrder(s string) []uint64 {
+	var out []uint64
+	if s == "-" || s == "" {
+		return out
+	}
+	for _, p := range strings.Split(s, ",") {
+		k, _ := strconv.ParseUint(p, 10, 64)
+		out = append(out, k)
+	}
+	return out
+}
+
+// orderedWalk: the walk function `walk` (k:answer,…) as the model wants it when an answer carries BR_ABORT: the keys
+// the real store visited first, in the order it visited them (answer 0 for a key the walk does not list), then the
+// other entries as they stand. Without a BR_ABORT answer the order means nothing and the text is left alone.
+func orderedWalk(walk string, order []uint64) string {
+	if walk == "-" {
+		return walk
+	}
+	type ent struct {
+		k uint64
+		f uint32
+	}
+	var ents []ent
+	ans := map[uint64]uint32{}
+	abort := false
+	for _, p := range strings.Split(walk, ",") {
+		kv := strings.Split(p, ":")
+		k, _ := strconv.ParseUint(kv[0], 10, 64)
+		f, _ := strconv.ParseUint(kv[1], 10, 32)
+		if _, dup := ans[k]; dup {
+			continue
+		}
+		ans[k] = uint32(f)
+		ents = append(ents, ent{k, uint32(f)})
+		if f&4 != 0 {
+			abort = true
+		}
+	}
+	if !abort {
+		return walk
+	}
+	var ps []string
+	done := map[uint64]bool{}
+	for _, k := range order {
+		if !done[k] {
+			done[k] = true
+			ps = append(ps, fmt.Sprintf("%d:%d", k, ans[k]))
+		}
+	}
+	for _, e := range ents {
+		if !done[e.k] {
+			ps = append(ps, fmt.Sprintf("%d:%d", e.k, e.f))
+		}
+	}
+	return strings.Join(ps, ",")
 }
 
 var crashPoints, crashStatesDistinct int
@@ -562,7 +631,7 @@ func main() {
 		"crash = process kill at a system-call boundary: every completed system call survives entirely, an interrupted one has not happened, user-space buffers (bufio, bytes.Buffer) are lost; a write(2) torn inside (SIGKILL between two pages of a multi-page write), reordered writes and power loss are outside (fsync is not modelled)",
 		"one process uses the directory; the harness waits for db.Mutex after every call, so Put's asynchronous sync has finished before the next call",
 		"keys and values are not mutated by the caller after Put / Get (the store keeps the caller's slice)",
-		"NewDBExt without WalkFunction; Browse walk functions return flags but never BR_ABORT in the model comparison (BR_ABORT is exercised against the Go map only)",
+		"NewDBExt without WalkFunction; when a walk answer carries BR_ABORT the model is given the order in which the real store visited the records (Go's map order; request lastorder) as the order of its walk list — every other part of the reply, and what the aborted browse did to flags and cached copies, is compared as for any request",
 		"files stay below 4 GiB (datpos is a uint32); index snapshots stay below 1 MiB (at most a few records per case; the theorems' bound is 43 690 records, client/peersdb allows 70 000)",
 	}
 
@@ -601,7 +670,8 @@ func main() {
 		}
 		runCase(c)
 	}
-	// BR_ABORT against the Go map only (order is the Go map's: any single element is acceptable)
+	// bare BR_ABORT at every record of a fresh store, against the Go map only (any single element is acceptable); BR_ABORT in
+	// combination with flag answers, on Browse and BrowseAll, inside whole histories: genWalk / the abort shape / the corpus
 	abortStream(g.Fork(), r.N(20, 200))
 	finish()
 }
